@@ -189,6 +189,25 @@ def r4_frontends(ctx):
     r.inst("Visitor for ParsedValueSeed", "callbacks: " + ", ".join(sorted(have)))
     for m in sorted(need - have):
         r.viol("R4:visitor#" + m, "Visitor for ParsedValueSeed lacks %s: a format that delivers this event would be rejected while another accepts the same data" % m)
+    # serde_json's streaming deserializer stops after the first value: only `end()` makes what follows (a second object from a botched
+    # merge, stray text) an error, as it is for the JSON5 and YAML loaders, which read the whole input - MIR: the call is on every path
+    # from the deserialization to an Ok return
+    try:
+        prog = ctx.mir("main")
+        import mustlib as M
+        bj = prog.body("parse_locales::locale::de_inner_json")
+        if bj is not None:
+            ends = M.call_blocks(bj, r"serde_json::Deserializer::<.*>::end$|serde_json::de::Deserializer::<.*>::end$")
+            des = M.call_blocks(bj, r"DeserializeSeed<'de>>::deserialize$")
+            oks = M.ok_return_blocks(bj)
+            rets = oks or [i_ for i_, t_ in bj.terms() if t_["k"] == "Return"]
+            if ends and des and not any(bj.paths_avoiding(d_, rets, ends + M.err_return_blocks(bj)) for d_ in des):
+                r.inst("de_inner_json#end", "the JSON loader checks that nothing follows the object (Deserializer::end on every successful path)")
+            else:
+                r.viol("R4:de_inner_json#trailing", "the JSON loader accepts a file with anything after its first value (no `Deserializer::end()` before the Ok return): the same bytes are an error "
+                       "as JSON5 / YAML, and the keys of a second object are silently dropped", file=bj.file, line=bj.line)
+    except Exception as ex_:  # noqa: BLE001
+        r.viol("R4:de_inner_json#trailing", "could not be decided: %s" % str(ex_)[:120])
     return r
 
 
@@ -318,10 +337,14 @@ def r7_key_order(ctx):
     if not fl:
         r.missing("LocaleSeed::visit_map")
     else:
-        sets = {"three keys": [(S("a"), A("va")), (S("b"), A("vb")), (S("c"), A("vc"))]}
+        Kk = lambda n_: CF("Key", name=S(n_))  # noqa: E731
+        # (the same key twice - also as `"a"` and `" a"`, which Key::new trims to one key; the deserializers do not report repeated keys
+        # to a visitor: whatever the visitor does with them must not depend on which comes first)
+        sets = {"three keys": [(Kk("a"), A("va")), (Kk("b"), A("vb")), (Kk("c"), A("vc"))],
+                "a key written twice": [(Kk("a"), A("v1")), (Kk("b"), A("vb")), (Kk("a"), A("v2"))]}
         cases.append(("LocaleSeed::visit_map", fl[0], {}, {}, sets,
                       lambda m: [CF("LocaleSeed", key_path=A("kp"), top_locale_name=S("en"), foreign_keys_paths=A("fkp"), name=S("en")), m],
-                      {"three keys": C("Ok", L(T(S("a"), A("va")), T(S("b"), A("vb")), T(S("c"), A("vc"))))}))
+                      {"three keys": C("Ok", L(T(Kk("a"), A("va")), T(Kk("b"), A("vb")), T(Kk("c"), A("vc"))))}))
     # 3. the configuration section
     fc = [f for f in ast.fns_named(CFGf, "visit_map") if f.impl_self and "CfgFileVisitor" in f.impl_self]
     if not fc:
